@@ -244,6 +244,11 @@ def rule_r4(prog, res):
     found = False
     for n in ifs:
         t = n.test
+        n_body, n_orelse = n.body, n.orelse
+        if isinstance(t, ast.UnaryOp) and isinstance(t.op, ast.Not):
+            # branches swapped under a negated window test
+            t = t.operand
+            n_body, n_orelse = n.orelse, n.body
         where = '%s:%d' % (f.module.relpath, n.lineno)
         if isinstance(t, ast.Compare) and len(t.ops) == 2 and unparse(
                 t.comparators[0]) == 'value':
@@ -257,9 +262,9 @@ def rule_r4(prog, res):
                              or (isinstance(t.ops[1], ast.LtE) and
                                  hi == 2 ** 64 - 1))
             native = any(isinstance(s, ast.Return) and unparse(s.value) ==
-                         'value' for s in n.body)
+                         'value' for s in n_body)
             fallback = any(isinstance(s, ast.Return) and 'integer_to_bytes'
-                           in unparse(s.value) for s in n.orelse)
+                           in unparse(s.value) for s in n_orelse)
             ok = lo_ok and hi_ok and native and fallback
             res.ob('R4', where, 'integer_to_bytes: native iff %s (folds to '
                    '[%s, %s]); else text form' % (unparse(t), lo, hi),
